@@ -605,7 +605,8 @@ def run_job(job: dict) -> dict:
         env = {k: v for k, v in (env or os.environ).items()
                if k not in ('MESON_RSP_THRESHOLD', 'NINJA', 'CC', 'CFLAGS', 'LDFLAGS', 'DESTDIR')}
         env.update(job['env'])
-    rec['spec'] = None if spec is None else {k: spec[k] for k in ('targets', 'tests', 'collision', 'failing_subproject') if k in spec}
+    rec['spec'] = None if spec is None else {k: spec[k] for k in ('targets', 'tests', 'collision', 'failing_subproject', 'shared')
+                                             if k in spec}
     r = projgen.configure(src, bld, job['args'], env=env, timeout=job.get('timeout', 300))
     rec['ok'] = r['ok']
     rec['rc'] = r['rc']
@@ -880,6 +881,12 @@ def judge_project(ctx: Ctx, rec: dict, lean_check: T.Optional[str], lean_parse: 
         if not ov['wf']:
             failed = [k for k in CLAUSES[1:] if not ov[k]]
             key = known_key or f'illformed:{"+".join(failed)}:{label}'
+            if failed == ['closed'] and '--layout=flat' in (job.get('args') or []) and not known_key:
+                # generator.process(<target>) under layout=flat: the input is named without the `meson-out/` prefix
+                produced = {o for e in g['edges'] for o in edge_all_outs(e)}
+                miss = [i for e in g['edges'] for i in edge_all_ins(e) + e['vals'] if i not in produced and i not in fs]
+                if miss and all('meson-out/' + os.path.basename(m) in produced for m in miss):
+                    key = 'flat-layout-generator-input-from-target'
             if failed == ['reach'] and rec.get('override') and not known_key:
                 # only the program of a test, reached through find_program on an overridden name, is missing below the
                 # test prerequisite target: Backend.get_testlike_targets does not unwrap build.LocalProgram
@@ -899,6 +906,12 @@ def judge_project(ctx: Ctx, rec: dict, lean_check: T.Optional[str], lean_parse: 
         ctx.extra['test_prereq_requirements'] = ctx.extra.get('test_prereq_requirements', 0) + len(prq)
         ctx.extra['test_prereq_requirements_reachable_only_via_prereq_edge'] = \
             ctx.extra.get('test_prereq_requirements_reachable_only_via_prereq_edge', 0) + len(nv)
+        for sh in (rec.get('spec') or {}).get('shared', []) or []:
+            dirs = {u[1] for u in sh['uses']}
+            ctx.tag(f"shared:{sh['pkind']}:consumers={len(sh['uses'])}:{'several-dirs' if len(dirs) > 1 or sh['dir'] not in dirs else 'one-dir'}")
+            for u in sh['uses']:
+                ctx.tag(f"shared-pair:{sh['pkind']}->{u[0]}")
+            ctx.extra['shared_objects'] = ctx.extra.get('shared_objects', 0) + 1
         for ts in (rec.get('spec') or {}).get('tests', []):
             if ts.get('way'):
                 ctx.tag(f"prereq-way:{ts['way']}:{'benchmark' if ts['benchmark'] else 'test'}:"
@@ -1434,6 +1447,39 @@ def run_quote(ctx: Ctx) -> None:
 
 # ---------------------------------------------------------------------------------------------------------------
 
+# producer / consumer classes of mesonbuild.build that the generator's sharing table (projgen._Gen.SHARE) was written
+# against; a class that appears or disappears in the live module makes the run deep and leaves a note
+KNOWN_BUILD_CLASSES = {
+    'covered': {'Executable', 'StaticLibrary', 'SharedLibrary', 'SharedModule', 'BothLibraries', 'CustomTarget',
+                'CustomTargetIndex', 'GeneratedList', 'Generator', 'ExtractedObjects', 'RunTarget', 'AliasTarget',
+                'Test', 'Data', 'ConfigurationData', 'Headers', 'InstallDir', 'LocalProgram', 'IncludeDirs'},
+    'not-generated-here': {'Jar', 'CompileTarget', 'StructuredSources', 'Man', 'EmptyDir', 'SymlinkData', 'OverrideExecutable',
+                           'DependencyOverride', 'DepManifest', 'EnvironmentVariables', 'ExecutableSerialisation',
+                           'CustomTargetBase', 'CommandBase', 'HoldableObject', 'ObjectHolder', 'Build', 'Target',
+                           'BuildTarget', 'TargetSources', 'MachineMap', 'ThreeMachineChoice', 'MapPerMachine',
+                           # internal helpers reached through generator.process(GeneratedList) / link_with, both generated
+                           'FileInTargetPrivateDir', 'FileMaybeInTargetPrivateDir', 'LinkableTarget'},
+}
+
+
+def check_build_classes(ctx: Ctx) -> None:
+    import inspect
+    from mesonbuild import build as B
+    live = {n for n, o in vars(B).items() if inspect.isclass(o) and o.__module__ == B.__name__
+            and not issubclass(o, BaseException) and not n.startswith('_')}
+    interesting = {n for n in live if any(k in n for k in ('Target', 'Library', 'Executable', 'Generat', 'Extract', 'Module',
+                                                           'Jar', 'Sources', 'Program'))}
+    known = KNOWN_BUILD_CLASSES['covered'] | KNOWN_BUILD_CLASSES['not-generated-here']
+    new = sorted(interesting - known)
+    gone = sorted((KNOWN_BUILD_CLASSES['covered'] & {'Executable', 'StaticLibrary', 'SharedLibrary', 'SharedModule', 'CustomTarget',
+                                                    'CustomTargetIndex', 'GeneratedList', 'ExtractedObjects'}) - live)
+    ctx.extra['build_classes_covered_by_generator'] = sorted(KNOWN_BUILD_CLASSES['covered'] & live)
+    if new or gone:
+        ctx.deep = True
+        ctx.notes.append(f'mesonbuild.build classes changed: new producer/consumer kinds not in the generator {new}, missing {gone}: '
+                         'deep run; extend projgen._Gen.SHARE')
+
+
 def run(ctx: Ctx) -> None:
     ctx.rule = ('a project counts once per (generator seed | corpus name, option combination); graphs/op sequences count '
                 'per distinct input')
@@ -1455,6 +1501,9 @@ def run(ctx: Ctx) -> None:
     def lap(name):
         t.append(time.time())
         ctx.notes.append(f'phase {name}: {t[-1] - t[-2]:.1f}s')
+    check_build_classes(ctx)
+    if os.environ.get('VERIF_C04_SIZE') == 'quick':
+        ctx.deep = False
     run_canon(ctx)
     run_quote(ctx)
     lap('canon+quote')
